@@ -10,6 +10,7 @@
 import PsutilModel.Proofs.C10
 import PsutilModel.Proofs.C10Front
 import PsutilModel.Proofs.C10Conc
+import PsutilModel.Proofs.C10Dict
 import PsutilModel.Model.C10Gen
 namespace Psutil.C10
 open Spec
@@ -429,6 +430,128 @@ theorem C10_unlocked_not_serialisable :
         = some [(0, .dict [("sda", [100])]), (0, .dict [("sda", [110])]), (1, .dict [("sda", [105])])]
     ∧ (runC bad Sys.init acts).map (fun s => (serial bad St.init s.log).2)
         = some [(0, .dict [("sda", [100])]), (0, .dict [("sda", [110])]), (1, .dict [("sda", [115])])] := by
+  decide
+
+/-! ## The three dicts as they are in the code, and `cache_info()` -/
+
+/-- obligation fed by the translator fact `rkAccumulates`: the only statement of `run` that touches
+    `reminder_keys` is `self.reminder_keys[name][key].add(remkey)`, next to
+    `self.reminders[name][remkey] += old_value`, with `remkey = (key, i)`. It breaks when the set is
+    assigned instead of added to (seeded change C10-3). -/
+theorem cfg_good_dict : cfg.DictGood := by unfold Cfg.DictGood; decide
+
+/-- **C10_concrete_refines.** `_WrapNumbers` modelled with its three dicts as they are (association
+    lists in insertion order, `defaultdict` reads that insert, `del` that can raise KeyError, the
+    asserts of `_add_dict`) returns, after *any* history, exactly what the abstract model returns —
+    so every theorem above speaks about the dict-level code — and its state abstracts to the
+    abstract state (`reminders` read with default 0). In particular no `KeyError` / `AssertionError`. -/
+theorem C10_concrete_refines (w : Name → Nat) (h : List Op) (op : Op)
+    (hw : ∀ o ∈ h, OpW w o) (ho : OpW w op) :
+    (cstep cfg (crunAll cfg CSt.init h) op).2 = .out (step cfg (runAll cfg St.init h) op).2
+      ∧ absSt (crunAll cfg CSt.init h) = runAll cfg St.init h := by
+  obtain ⟨h1, h2⟩ := crunAll_sim cfg cfg_good cfg_good_dict w h CSt.init (fun _ => []) hw
+    (init_inv w) cinvSt_init
+  rw [absSt_init] at h1
+  have hi := runAll_inv cfg cfg_good w h St.init (fun _ => []) hw (init_inv w)
+  rw [← h1] at hi
+  obtain ⟨h3, _, _⟩ := cstep_sim cfg cfg_good cfg_good_dict w _ _ op ho hi h2
+  rw [h1] at h3
+  exact ⟨h3, h1⟩
+
+/-- **C10_reminder_keys_support.** The invariant that ties the two reminder dicts, after *any*
+    history and for every cache name: the entries `cache[name]`, `reminders[name]`,
+    `reminder_keys[name]` exist together, and `reminder_keys[name][k]` is a duplicate-free set holding
+    exactly the remkeys `(k, i)` whose reminder is not 0 — `reminder_keys` = support of `reminders`.
+    This is what makes `_remove_dead_reminders` forget *everything* about a vanished device (it only
+    deletes the reminders indexed there) and what a change like seeded C10-3 (`… [key] = wrapped`:
+    only the fields of the most recent wrapping call stay indexed) breaks. -/
+theorem C10_reminder_keys_support (w : Name → Nat) (h : List Op) (n : Name) (hw : ∀ o ∈ h, OpW w o) :
+    (crunAll cfg CSt.init h).get n = {} ∨
+    ∃ old d rk, (crunAll cfg CSt.init h).get n = ⟨some old, some d, some rk⟩
+      ∧ (∀ k p, rkMem rk k p = true ↔ (p.1 = k ∧ remGet d p ≠ 0))
+      ∧ (∀ k ps, rk.lookup k = some ps → ps.Nodup) := by
+  obtain ⟨_, h2⟩ := crunAll_sim cfg cfg_good cfg_good_dict w h CSt.init (fun _ => []) hw
+    (init_inv w) cinvSt_init
+  rcases (h2 n).split with heq | ⟨old, d, rk, heq, hi⟩
+  · exact Or.inl heq
+  · refine Or.inr ⟨old, d, rk, heq, ?_, hi.nodup⟩
+    intro k p
+    rw [hi.supp k p]
+    simp
+
+/-- **C10_cache_info_reflects.** What `cache_info()` returns after any history `h`, in terms of the
+    history alone: `name` is a key of each of the three dicts iff `name` has had a `nowrap=True` call
+    since it was last cleared; `cache[name]` is the newest such snapshot; `reminders[name]` read at
+    `(k, i)` (default 0) is the sum of the values counter `i` of `k` had just before each backwards
+    step in `k`'s current epoch; `reminder_keys[name][k]` is the set of `(k, i)` where that sum is not 0. -/
+theorem C10_cache_info_reflects (w : Name → Nat) (h : List Op) (n : Name) (hw : ∀ o ∈ h, OpW w o) :
+    let info := cacheInfo (crunAll cfg CSt.init h)
+    (∀ raw, (n, raw) ∈ info.cache ↔ (snapsOf n h).head? = some raw)
+    ∧ (n ∈ info.cache.map (·.1) ↔ n ∈ info.reminders.map (·.1))
+    ∧ (n ∈ info.cache.map (·.1) ↔ n ∈ info.reminderKeys.map (·.1))
+    ∧ (∀ d, (n, d) ∈ info.reminders → ∀ k i, remGet d (k, i) = wrapSum i (epochVals k (snapsOf n h)))
+    ∧ (∀ rk, (n, rk) ∈ info.reminderKeys → ∀ k p,
+        rkMem rk k p = true ↔ (p.1 = k ∧ wrapSum p.2 (epochVals k (snapsOf n h)) ≠ 0)) := by
+  intro info
+  obtain ⟨h1, h2⟩ := crunAll_sim cfg cfg_good cfg_good_dict w h CSt.init (fun _ => []) hw
+    (init_inv w) cinvSt_init
+  rw [absSt_init] at h1
+  have hi := (runAll_inv cfg cfg_good w h St.init (fun _ => []) hw (init_inv w)).inv n
+  rw [← h1, absSt_get] at hi
+  have hsn : (List.foldl (snapsStep n) [] h) = snapsOf n h := rfl
+  rw [hsn] at hi
+  have mc : ∀ x, (n, x) ∈ info.cache ↔ ((crunAll cfg CSt.init h).get n).cache = some x := by
+    intro x; cases n <;> simp [info, cacheInfo, allNames, CSt.get]
+  have mr : ∀ x, (n, x) ∈ info.reminders ↔ ((crunAll cfg CSt.init h).get n).rems = some x := by
+    intro x; cases n <;> simp [info, cacheInfo, allNames, CSt.get]
+  have mk : ∀ x, (n, x) ∈ info.reminderKeys ↔ ((crunAll cfg CSt.init h).get n).remKeys = some x := by
+    intro x; cases n <;> simp [info, cacheInfo, allNames, CSt.get]
+  have nm : ∀ (l : List (Name × Raw)), n ∈ l.map (·.1) ↔ ∃ x, (n, x) ∈ l := by
+    intro l; simp
+  have nm2 : ∀ (l : List (Name × RemD)), n ∈ l.map (·.1) ↔ ∃ x, (n, x) ∈ l := by
+    intro l; simp
+  have nm3 : ∀ (l : List (Name × RemK)), n ∈ l.map (·.1) ↔ ∃ x, (n, x) ∈ l := by
+    intro l; simp
+  simp only [nm, nm2, nm3, mc, mr, mk]
+  rcases (h2 n).split with heq | ⟨old, d, rk, heq, hci⟩
+  · rw [heq] at hi ⊢
+    refine ⟨fun raw => ?_, by simp, by simp, by simp, by simp⟩
+    rw [← hi.cache]; rfl
+  · rw [heq] at hi ⊢
+    refine ⟨fun raw => ?_, by simp, by simp, ?_, ?_⟩
+    · rw [← hi.cache]; rfl
+    · intro d' hd k i
+      simp only [Option.some.injEq] at hd
+      subst hd
+      exact hi.rem k i
+    · intro rk' hrk k p
+      simp only [Option.some.injEq] at hrk
+      subst hrk
+      rw [hci.supp k p]
+      have := hi.rem p.1 p.2
+      simp only [absW] at this
+      by_cases hp : p.1 = k
+      · subst hp; simp [← this]
+      · simp [hp]
+
+/-- **C10_reminder_keys_overwrite_counterexample.** Why the invariant matters: if the set were
+    assigned instead of added to, a reminder from an earlier wrapping call would no longer be
+    indexed, survive the device's disappearance, and be added to the device's counters when it
+    comes back: `{a:(100,100)}`, `{a:(10,100)}`, `{a:(10,10)}`, `{}`, `{a:(5,5)}`, `{a:(5,5)}` reports
+    `(105, 5)` instead of `(5, 5)`. -/
+theorem C10_reminder_keys_overwrite_counterexample :
+    let bad : Cfg := { emptyFeedsWrap := true, strictLess := true, namesDistinct := true, rkAccumulate := false }
+    let h : List Op := [.call .disk true [("a", [100, 100])], .call .disk true [("a", [10, 100])],
+      .call .disk true [("a", [10, 10])], .call .disk true [], .call .disk true [("a", [5, 5])]]
+    (cstep bad (crunAll bad CSt.init h) (.call .disk true [("a", [5, 5])])).2 = .out (.dict [("a", [105, 5])])
+    ∧ expected h .disk [("a", [5, 5])] = [("a", [5, 5])]
+    ∧ (cstep cfg (crunAll cfg CSt.init h) (.call .disk true [("a", [5, 5])])).2 = .out (.dict [("a", [5, 5])]) := by
+  decide
+
+/-- non-vacuity: after two wraps of field 0 and one of field 1 the dicts are as Python has them -/
+example : (crunAll cfg CSt.init [.call .net true [("a", [100, 100])], .call .net true [("a", [10, 100])],
+      .call .net true [("a", [5, 50])]]).net
+    = ⟨some [("a", [5, 50])], some [(("a", 0), 110), (("a", 1), 100)], some [("a", [("a", 0), ("a", 1)])]⟩ := by
   decide
 
 /-! ## Non-vacuity and the reason `cfg_good` matters -/
